@@ -3,6 +3,7 @@
 package zzverif
 
 import (
+	jerr "github.com/jsightapi/jsight-schema-go-library/errors"
 	"github.com/jsightapi/jsight-schema-go-library/formats/json"
 	"github.com/jsightapi/jsight-schema-go-library/notations/jschema"
 	"github.com/jsightapi/jsight-schema-go-library/zzverif/gen"
@@ -304,3 +305,29 @@ func init() {
 	ZZHarnesses["ZZC15Plain"] = ZZC15Plain
 	ZZHarnesses["ZZC15Types"] = ZZC15Types
 }
+
+// ZZC15Bytes: every byte string of up to maxlen bytes taken as a schema: whenever Check accepts it,
+// Example returns well-formed JSON that the schema accepts.
+func ZZC15Bytes() {
+	n := v.Choose(1, v.Param("maxlen", 4))
+	text := v.Bytes(n)
+	v.Observe("schema", text)
+	s := jschema.New("s", text)
+	v.Assume(s.Check() == nil)
+	ex, err := s.Example()
+	if ce, ok := err.(interface{ Code() jerr.ErrorCode }); ok && ce.Code() == jerr.ErrEmptySchema {
+		// a text of blanks and comments only compiles, and Example / Validate answer "Empty schema"
+		v.Reach("C15/bytes-empty-schema")
+		return
+	}
+	v.Assert(err == nil, "C15/example-error-on-accepted-schema")
+	if err != nil {
+		return
+	}
+	v.Observe("example", ex)
+	v.Reach("C15/bytes")
+	v.Assert(gen.JSONText(ex), "C15/example-is-not-well-formed-json")
+	v.Assert(s.Validate(json.New("d", ex)) == nil, "C15/example-rejected-by-its-own-schema")
+}
+
+func init() { ZZHarnesses["ZZC15Bytes"] = ZZC15Bytes }
